@@ -340,14 +340,22 @@ def _cb_record(frame, label, res, args, kwargs):
             if isinstance(v, np.ndarray) and (v is a or np.may_share_memory(v, a)):
                 alias = True
                 break
-        prev = frame.cb_by_id.get(id(a))
-        if prev is not None and frame.cb_records[prev] is not None and frame.cb_records[prev][3] is a:
-            # the same object returned again (cached array / reused buffer): refresh its digest - whatever
-            # happened to it before this call was verified by _cb_verify at callback entry
-            frame.cb_records[prev][4] = it.snap
-            frame.cb_records[prev][1] = frame.cb_calls
-            continue
-        frame.cb_by_id[id(a)] = len(frame.cb_records)
+        root = a
+        while isinstance(root.base, np.ndarray):
+            root = root.base
+        prev = frame.cb_by_id.get(id(root))
+        if prev is not None and frame.cb_records[prev] is not None:
+            if frame.cb_records[prev][3] is a:
+                # the same object returned again (cached array / reused buffer): refresh its digest - whatever
+                # happened to it before this call was verified by _cb_verify at callback entry
+                frame.cb_records[prev][4] = it.snap
+                frame.cb_records[prev][1] = frame.cb_calls
+                continue
+            # another view of the same buffer: the older view was verified at this callback's entry; user code
+            # (the callback) has run since and may legitimately have rewritten its own buffer -> track the newest only
+            frame.cb_bytes -= frame.cb_records[prev][3].nbytes
+            frame.cb_records[prev] = None
+        frame.cb_by_id[id(root)] = len(frame.cb_records)
         frame.cb_records.append([label, frame.cb_calls, it.path, a, it.snap, alias])
         frame.cb_bytes += a.nbytes
     if len(frame.cb_records) > _CB_MAX_RECORDS or frame.cb_bytes > _CB_MAX_BYTES:
